@@ -395,6 +395,9 @@ def ob_wait_run(nw: int, c0: int, c1: int, c2: int, c3: int, c4: int, c5: int, n
 # --------------------------------------------------------------------------------------------------------------- Ob4
 
 
+from vlib.h_handlers_twin import Resp as _TwinResp  # noqa: E402
+
+
 class WaitWF(Workflow):
     """Real workflow whose step names/configs ``from_serialized`` rebuilds the broker state from."""
 
@@ -404,6 +407,11 @@ class WaitWF(Workflow):
 
     @step(num_workers=2)
     async def a(self, ev: EvA) -> StopEvent:
+        return StopEvent()
+
+    @step
+    async def c(self, ev: _TwinResp) -> StopEvent:
+        # a step INPUT of another module's event class that has the same short name as the class step `a` waits for
         return StopEvent()
 
     def _get_steps(self):
